@@ -27,6 +27,7 @@ from gen import grammars as G
 import translate
 
 LEVEL = "proof"
+REPLAY_BY_SEED = True  # a replay file names (seed, tier); ./check --replay re-runs exactly that run
 
 RULE = (
     "cases = CLI invocations (check, parse; plus solve->check and parse->check pipes) on generated file sets: grammar in {missing, "
